@@ -44,6 +44,16 @@ theorem seq_all_tcp (k : Nat) : ∀ l ∈ seqModel k, ∃ tag, l = .msg tag fals
   obtain ⟨i, _, rfl⟩ := hl
   exact ⟨2000 + i, rfl⟩
 
+/-- ★ the upstream has no memory of a failed TCP leg: in a run of truncated replies during which the TCP server
+    fails the first `f` exchanges, exactly those callers get an error and every later caller gets the TCP reply. -/
+theorem seq_recovers (f k i : Nat) (hi : i < k) :
+    (seqModelF f k)[i]? = some (if i < f then .err else .msg (2000 + i) false) := by
+  simp only [seqModelF, List.getElem?_map, List.getElem?_range hi, Option.map_some]
+  by_cases h : i < f <;> simp [exchange, h]
+
+theorem seqModelF_zero (k : Nat) : seqModelF 0 k = seqModel k := by
+  simp [seqModelF, seqModel]
+
 /-- the specification is not vacuous: it rejects returning the truncated message. -/
 example : spec 7 (.msg 1 true) (.msg 2 false) ⟨.msg 1 true, 0, none⟩ = false := by decide
 example : spec 7 (.msg 1 true) (.msg 2 false) ⟨.msg 2 false, 1, some 7⟩ = true := by decide
